@@ -71,6 +71,10 @@ def cases(chk):
         for i in (letters if not quick else letters[::3] + letters[:2] + letters[-2:]):
             out.append(("bech32dec", "bech32-decode", [S(addr[:i] + addr[i].upper() + addr[i + 1:])]))
             out.append(("bech32dec", "bech32-decode", [S(addr.upper()[:i] + addr[i] + addr.upper()[i + 1:])]))
+    # bech32-decode is a general decoder: payloads of every length that fits (not only witness programs of 2..40 bytes), both checksum kinds
+    for ln in (0, 1, 2, 19, 20, 21, 32, 39, 40, 41, 45, 48, 49):
+        for ver in (0, 1, 16):
+            out.append(("bech32dec", "bech32-decode", [S(btc.bech32_encode("bcrt", ver, rb(rng, ln)))]))
     # p2pkh script <-> address
     for _ in range(3):
         h = rb(rng, 20)
@@ -98,10 +102,13 @@ def cases(chk):
         g = N.to_bytes(32, "little")
         out.append(("add", "add", [D(a.to_bytes(32, "little")), D(b_.to_bytes(32, "little")), D(g)]))
         out.append(("sub", "sub", [D(a.to_bytes(32, "little")), D(b_.to_bytes(32, "little")), D(g)]))
+    # prefix-compact-size across every width boundary (the long ones only fit the inline form)
+    for ln in (0, 1, 252, 253, 254, 255, 256, 257, 1000, 32767, 32768, 40000, 49000):
+        out.append(("prefix_compact_size", "prefix-compact-size" if ln < 1500 else None, [D(rb(rng, ln))]))
     # sums and differences that land exactly on the modulus or on zero
-    for g_ in (N, btc.P, 97, 2 ** 255):
+    for g_ in ((N, 97) if quick else (N, btc.P, 97, 2 ** 255)):
         gb = g_.to_bytes(32, "little")
-        for a in (1, 5, g_ // 2, g_ - 1):
+        for a in ((5, g_ - 1) if quick else (1, 5, g_ // 2, g_ - 1)):
             for a_, b2 in ((a, g_ - a), (g_ - a, a), (a, g_ - a - 1), (a, g_ - a + 1), (0, g_), (g_, 0), (g_, g_), (g_ - 1, 1)):
                 if 0 <= a_ < 2 ** 256 and 0 <= b2 < 2 ** 256:
                     out.append(("add", "add", [D(a_.to_bytes(32, "little")), D(b2.to_bytes(32, "little")), D(gb)]))
@@ -161,6 +168,11 @@ def cases(chk):
     return out
 
 
+def nowarn(text):
+    """diagnostics in lower case without the lines that are only warnings (the value is still produced)"""
+    return "\n".join(l for l in text.lower().split("\n") if not l.startswith("warning"))
+
+
 def argtext(a):
     return ("0x" + a["v"]) if a["k"] == "data" else a["v"]
 
@@ -176,6 +188,7 @@ def usable_multi(args):
 
 def run(chk):
     chk.mc("MC_Codecs", "MC_Codecs.cfg")
+    chk.mc("MC_Jacobi", "MC_Jacobi.cfg")
     b_ = chk.build(mains=("btcdeb", "btcc"))
     deb, btcc = b_.exe("btcdeb"), b_.exe("btcc")
     rng = chk.rng
@@ -193,7 +206,7 @@ def run(chk):
             if not R.alive() or "<<NO PROMPT>>" in out:
                 evs.append({"e": "Crashed", "sig": -1, "cmd": cmd, "args": args}); break
             lines = [l for l in out.strip().split("\n") if l and not l.startswith("(bech32")]
-            failed = any(w in err.lower() or w in out.lower() for w in KW)
+            failed = any(w in nowarn(err) or w in nowarn(out) for w in KW)
             name = nm or {"len": "len", "bech32m-encode": "bech32menc", "verify-sig-compact": "verify_sig_compact"}.get(cmd, cmd)
             evs.append({"e": "Tf", "form": "cmd", "name": name, "args": args, "out": lines[-1] if lines else "", "failed": failed, "stderr": err[-150:]})
         R.close()
@@ -217,14 +230,14 @@ def run(chk):
         r12 = ptydrv.run_cli([btcc, expr(n1, a1), expr(n2, a2)], stdin_tty=True)
         def ev(nm, args, r, second_of=None):
             out = r["stdout"].strip().split("\n")[-1] if r["stdout"].strip() else ""
-            failed = any(w in r["stderr"].lower() for w in KW) or r["code"] != 0
+            failed = any(w in nowarn(r["stderr"]) for w in KW) or r["code"] != 0
             return {"e": "Tf", "form": "inline", "name": nm, "args": args, "out": out, "failed": failed, "stderr": r["stderr"][-150:], "code": r["code"]}
         e1 = ev(n1, a1, r1)
         evs.append(e1)
         # the second expression's bytes = combined output minus the first expression's output
         o12 = r12["stdout"].strip().split("\n")[-1] if r12["stdout"].strip() else ""
         if not e1["failed"] and o12.startswith(e1["out"]) and r12["code"] == 0:
-            f2 = any(w in r12["stderr"].lower().replace(r1["stderr"].lower(), "") for w in KW)
+            f2 = any(w in nowarn(r12["stderr"]).replace(nowarn(r1["stderr"]), "") for w in KW)
             evs.append({"e": "Tf", "form": "inline", "name": n2, "args": a2, "out": o12[len(e1["out"]):], "failed": f2, "stderr": r12["stderr"][-150:], "code": r12["code"], "after": n1})
         return evs
     with cf.ThreadPoolExecutor(max_workers=16) as ex:
